@@ -190,6 +190,11 @@ func c16Log(c *C16Case, r *core.Rec) {
 	}
 	lmin, lmax := bigLog(math.Abs(c.Min)), bigLog(math.Abs(c.Max))
 	den := new(big.Float).SetPrec(320).Sub(lmax, lmin)
+	// conditioning of y = (ln x - ln Min)/(ln Max - ln Min) in float64: each logarithm
+	// carries a rounding error of eps*|ln|, magnified by 1/|ln Max - ln Min|
+	condOf := func(x float64) float64 {
+		return 4 * ref.Eps * (math.Abs(math.Log(math.Abs(x))) + math.Abs(ref.ToF(lmin)) + math.Abs(ref.ToF(lmax)) + 1) / math.Abs(ref.ToF(den))
+	}
 	xs := c16LogXs(c.Min, c.Max)
 	type pt struct{ x, y float64 }
 	var pts []pt
@@ -199,7 +204,7 @@ func c16Log(c *C16Case, r *core.Rec) {
 		r.OutcomeF(y)
 		num := new(big.Float).SetPrec(320).Sub(bigLog(math.Abs(x)), lmin)
 		want := ref.ToF(num.Quo(num, den))
-		if !r.Err("log-map", math.Abs(y-want), 1e-12*(1+math.Abs(want))) {
+		if !r.Err("log-map", math.Abs(y-want), (1e-12+condOf(x))*(1+math.Abs(want))) {
 			r.Fail("log-map", "Log{%v,%v}.Map(%v)=%v, exact %v", c.Min, c.Max, x, y, want)
 		}
 		pts = append(pts, pt{x, y})
@@ -229,7 +234,7 @@ func c16Log(c *C16Case, r *core.Rec) {
 		if !r.Err("log-unmap", math.Abs(x-want)/math.Abs(want), 1e-12) {
 			r.Fail("log-unmap", "Log{%v,%v}.Unmap(%v)=%v, exact %v", c.Min, c.Max, y, x, want)
 		}
-		if yy := s.Map(x); !r.Err("log-map-unmap", math.Abs(yy-y), 1e-12*(1+math.Abs(y))) {
+		if yy := s.Map(x); !r.Err("log-map-unmap", math.Abs(yy-y), (1e-12+2*condOf(x))*(1+math.Abs(y))) {
 			r.Fail("log-map-unmap", "Log{%v,%v}: Map(Unmap(%v))=%v", c.Min, c.Max, y, yy)
 		}
 	}
@@ -344,6 +349,23 @@ func c16Run(c *core.Ctx) {
 	run := func() {
 		r.Case("scale", cs)
 		r.Try(func() { c16Check(cs, r) })
+	}
+	// narrow, non-degenerate domains at both ends of the magnitude range
+	for _, m := range []float64{1e-12, 1, 1e12} {
+		for _, rel := range []float64{0x1p-30, 1e-3} {
+			for _, sg := range []float64{1, -1} {
+				if !c.Mine() {
+					continue
+				}
+				a, b := sg*m, sg*m*(1+rel)
+				*cs = C16Case{Kind: "linear", Min: a, Max: b}
+				run()
+				*cs = C16Case{Kind: "linear", Min: b, Max: a}
+				run()
+				*cs = C16Case{Kind: "log", Min: a, Max: b}
+				run()
+			}
+		}
 	}
 	for _, a := range vals {
 		for _, b := range vals {
